@@ -27,19 +27,80 @@ def coq_prog(p):
 def coq_nats(l): return '[' + '; '.join('%d%%nat' % x for x in l) + ']'
 def coq_ns(l): return '[' + '; '.join('%d' % x for x in l) + ']'
 
+SMALL = [(['L'], ['F1']), (['F1'], ['L']), (['L', 'F1'], ['L']), (['F1', 'L'], ['L']), (['L'], ['L'])]
+
 def programs(tier, rnd):
+    """(initial count, thread programs, max schedules of the depth-first enumeration)"""
     P = []
-    two = [(['L'], ['L']), (['L'], ['F1']), (['L', 'F1'], ['L']), (['L'], ['F1', 'L']), (['L', 'L'], ['F1']),
-           (['L', 'F1', 'L'], ['F1']), (['L', 'F2'], ['L', 'F1']), (['F1', 'L'], ['F1', 'L'])]
+    # the smallest racing programs are enumerated exhaustively, from a positive count first: they contain the
+    # windows lookup-CAS vs forget (load .. compare-exchange) and probe vs removal
+    for r0 in (1, 2, 0):
+        for a, b in SMALL: P.append((r0, [a, b], (400 if len(a) + len(b) == 2 else (110 if r0 else 40)) if tier == 'quick' else 100000))
+    two = [(['L'], ['F1', 'L']), (['L', 'L'], ['F1']), (['L', 'F1', 'L'], ['F1']), (['L', 'F2'], ['L', 'F1']), (['F1', 'L'], ['F1', 'L'])]
     for r0 in (0, 1, 2):
-        for a, b in two: P.append((r0, [a, b], 35 if tier == 'quick' else 100000))
+        for a, b in two: P.append((r0, [a, b], 20 if tier == 'quick' else 100000))
     three = [(['L'], ['L'], ['F1']), (['L'], ['F1'], ['F1']), (['L'], ['L'], ['L'])]
     for r0 in (0, 1):
-        for pr in three: P.append((r0, list(pr), 25 if tier == 'quick' else 100000))
+        for pr in three: P.append((r0, list(pr), 20 if tier == 'quick' else 100000))
     if tier != 'quick':
         for r0 in (0, 1, 2):
             P.append((r0, [['L', 'F1', 'L'], ['F1', 'L'], ['L', 'F2']], 100000))
     return P
+
+def post_count(r0, pr):
+    """when every sequential order ends with the same count k >= 2, the client afterwards forgets k-1 of its
+    references: the number must stay usable with count 1"""
+    outs = seq_outcomes(r0, pr)
+    if len(outs) == 1:
+        k = next(iter(outs))
+        if k >= 2: return k - 1
+    return 0
+
+def make_script(progs, rnd, nrandom):
+    script = ''
+    for r0, pr, mx in progs:
+        script += 'r0 %d\n' % r0 + ''.join('thread %s\n' % ' '.join(p) for p in pr)
+        pc = post_count(r0, pr)
+        if pc: script += 'post %d\n' % pc
+        script += 'dfs %d\n' % mx
+        for _ in range(nrandom):
+            script += 'sched ' + ' '.join(str(rnd.randrange(len(pr))) for _ in range(24)) + '\n'
+    return script
+
+def parse_runs(out):
+    runs = []; complete = truncated = 0
+    for l in out.split('\n'):
+        if not l.startswith('{'): continue
+        try: r = json.loads(l)
+        except Exception: continue
+        if 'dfs_complete' in r: complete += 1
+        elif 'dfs_truncated' in r: truncated += 1
+        else: runs.append(r)
+    return runs, complete, truncated
+
+def judge(r):
+    """C09 on one executed schedule of the implementation: same number for every lookup; the final count is the
+    result of SOME sequential order of the operations; the number is usable iff the count is positive, and stays
+    usable while the client holds references (also after it forgot all but one of them); one inode object."""
+    pr = r['progs']; r0 = r['r0']; final = max(r['rc'], 0)
+    for t, res in enumerate(r['results']):
+        for o, v in zip(pr[t], res):
+            if o == 'L' and v != r['ino']:
+                return 'lookup in thread %d returned %d, the file has number %d' % (t, v, r['ino'])
+    if [len(x) for x in r['results']] != [len(p) for p in pr]: return 'not every operation completed'
+    outs = seq_outcomes(r0, pr)
+    if final not in outs:
+        return 'final lookup count %d is not the result of any sequential order of the operations (possible: %s): a reference was %s' % (
+            final, sorted(outs), 'lost' if final < min(outs) else 'duplicated')
+    if (r['getattr'] == 9) != (final == 0): return 'count %d but getattr errno %d' % (final, r['getattr'])
+    holds = r0 + sum(1 for p in pr for o in p if o == 'L') - sum(int(o[1:]) for p in pr for o in p if o != 'L')
+    if holds > 0 and r['getattr'] != 0:
+        return 'the client still holds %d reference(s) to number %d but getattr answers errno %d' % (holds, r['ino'], r['getattr'])
+    if r['ninodes'] != 1 + (1 if final > 0 else 0): return '%d inode objects in the table with count %d' % (r['ninodes'], final)
+    if r.get('post', 0) > 0 and (r['rc2'] != 1 or r['getattr2'] != 0):
+        return 'after the run the client forgot %d of its %d references: count %d, getattr errno %d (expected count 1, usable)' % (
+            r['post'], r['post'] + 1, r['rc2'], r['getattr2'])
+    return None
 
 def run_check(tier, seed):
     ev = Evidence(PROP, tier, seed)
@@ -60,49 +121,24 @@ def run_check(tier, seed):
     rnd = random.Random(seed)
     progs = programs(tier, rnd)
     d = os.path.join(SCRATCH, 'ptconc'); os.makedirs(d, exist_ok=True)
-    script = ''
-    for r0, pr, mx in progs:
-        script += 'r0 %d\n' % r0 + ''.join('thread %s\n' % ' '.join(p) for p in pr) + 'dfs %d\n' % mx
-        # plus seeded random schedules (the truncated depth-first search only covers one corner)
-        for _ in range(4 if tier == 'quick' else 2000):
-            script += 'sched ' + ' '.join(str(rnd.randrange(len(pr))) for _ in range(24)) + '\n'
+    script = make_script(progs, rnd, 3 if tier == 'quick' else 2000)
     sp = os.path.join(d, 'c09.txt'); open(sp, 'w').write(script)
     import time as _t; _t0 = _t.time()
     rc, out = run([os.path.join(bindir, 'ptconc'), sp, d], timeout=900)
     ev.cov['harness_s'] = round(_t.time() - _t0, 1)
-    runs = []; complete = 0; truncated = 0
-    for l in out.split('\n'):
-        if not l.startswith('{'): continue
-        try: r = json.loads(l)
-        except Exception: continue
-        if 'dfs_complete' in r: complete += 1
-        elif 'dfs_truncated' in r: truncated += 1
-        else: runs.append(r)
+    runs, complete, truncated = parse_runs(out)
     if rc != 0:
         findings.append({'what': 'scheduler run did not complete (panic, deadlock or non-terminating retry loop in the server?)',
                          'input': {'script': script[:2000]}, 'log': out[-1500:], 'sig': {'check': 'crash'}})
     exprs = []; shapes = set(); samples = []
+    def finding_of(r, bad):
+        return {'what': bad, 'input': {'r0': r['r0'], 'threads': r['progs'], 'schedule': r['sched']},
+                'observed': {k: r.get(k) for k in ('trace', 'results', 'rc', 'getattr', 'ninodes', 'post', 'rc2', 'getattr2')},
+                'sig': {'check': 'concurrent', 'threads': len(r['progs'])}}
     for r in runs:
-        pr = r['progs']; r0 = r['r0']
-        final = max(r['rc'], 0)
-        inp = {'r0': r0, 'threads': pr, 'schedule': r['sched']}
-        bad = None
-        for t, res in enumerate(r['results']):
-            for o, v in zip(pr[t], res):
-                if o == 'L' and v != r['ino']:
-                    bad = 'lookup in thread %d returned %d, the file has number %d' % (t, v, r['ino'])
-        outs = seq_outcomes(r0, pr)
-        if bad is None and final not in outs:
-            bad = 'final lookup count %d is not the result of any sequential order of the operations (possible: %s)' % (final, sorted(outs))
-        if bad is None and (r['getattr'] == 9) != (final == 0):
-            bad = 'count %d but getattr errno %d' % (final, r['getattr'])
-        if bad is None and r['ninodes'] != 1 + (1 if final > 0 else 0):
-            bad = '%d inode objects in the table with count %d' % (r['ninodes'], final)
-        if bad is None and [len(x) for x in r['results']] != [len(p) for p in pr]:
-            bad = 'not every operation completed'
-        if bad:
-            findings.append({'what': bad, 'input': inp, 'observed': {k: r[k] for k in ('trace', 'results', 'rc', 'getattr', 'ninodes')},
-                             'sig': {'check': 'concurrent', 'threads': len(pr)}})
+        pr = r['progs']; r0 = r['r0']; final = max(r['rc'], 0)
+        bad = judge(r)
+        if bad: findings.append(finding_of(r, bad))
         shapes.add((r0, json.dumps(pr), tuple(r['trace'])))
         if len(samples) < 3: samples.append(r)
         exprs.append('check_sched %d [%s] %s %s %d %s' % (r0, '; '.join(coq_prog(p) for p in pr), coq_nats(r['sched']), coq_ns(r['trace']), final, coq_ns(r['dones'])))
@@ -115,6 +151,35 @@ def run_check(tier, seed):
                            'case': {'r0': r['r0'], 'threads': r['progs'], 'schedule': r['sched']},
                            'observed': {k: r[k] for k in ('trace', 'dones', 'rc')}, 'n_disagreeing_schedules': len(fails)})
         ev.cov['model_vs_impl_schedules'] = len(exprs)
+        if (fails or errs) and not findings:
+            # the model no longer represents the code: search harder for a failing schedule before giving up --
+            # exhaustive enumeration of the small programs (no truncation), judged by the property predicate alone
+            deep = [(r0, [a, b], 20000) for r0 in (1, 2, 0) for a, b in SMALL + [(['L', 'L'], ['F1']), (['L'], ['F1', 'L']), (['L', 'F2'], ['L', 'F1'])]]
+            sp2 = os.path.join(d, 'c09_deep.txt'); open(sp2, 'w').write(make_script(deep, rnd, 50))
+            rc2, out2 = run([os.path.join(bindir, 'ptconc'), sp2, d], timeout=1200)
+            runs2, _, _ = parse_runs(out2)
+            ev.cov['deep_search_schedules'] = len(runs2)
+            for r in runs2:
+                bad = judge(r)
+                if bad: findings.append(finding_of(r, bad))
+            if not findings:
+                # last resort: the racing steps may not be separated by a yield point (the scheduler cannot put a
+                # thread between them): run the small programs free-running many times and look at the final counts
+                iters = 100000 if tier == 'quick' else 1000000
+                st = [(1, [['F1'], ['L']]), (2, [['L', 'F1'], ['L']]), (1, [['L'], ['L'], ['F1']]), (2, [['F1', 'L'], ['L', 'F1']])]
+                txt = ''.join('r0 %d\n' % r0 + ''.join('thread %s\n' % ' '.join(p) for p in pr) + 'stress %d\n' % iters for r0, pr in st)
+                sp3 = os.path.join(d, 'c09_stress.txt'); open(sp3, 'w').write(txt)
+                rc3, out3 = run([os.path.join(bindir, 'ptconc'), sp3, d], timeout=1800)
+                for l in out3.split('\n'):
+                    if not l.startswith('{"stress"'): continue
+                    r = json.loads(l); outs = seq_outcomes(r['r0'], r['progs'])
+                    for cnt, ga, times in r['outcomes']:
+                        if max(cnt, 0) not in outs or (ga == 9) != (max(cnt, 0) == 0):
+                            findings.append({'what': 'free-running threads: final lookup count %d (getattr errno %d) in %d of %d runs is not the result of any sequential order (possible: %s)' % (cnt, ga, times, r['stress'], sorted(outs)),
+                                             'input': {'r0': r['r0'], 'threads': r['progs'], 'schedule': 'free-running, %d repetitions (not deterministic: no yield point separates the racing steps)' % r['stress']},
+                                             'observed': {'outcomes [count, getattr errno, times]': r['outcomes']},
+                                             'sig': {'check': 'concurrent-stress', 'threads': len(r['progs'])}})
+                ev.cov['stress_runs'] = iters * len(st)
     ev.cov['evaluations'] = len(runs)
     ev.cov['distinct_nontrivial'] = len(shapes)
     ev.cov['programs'] = len(progs); ev.cov['programs_fully_enumerated'] = complete; ev.cov['programs_truncated'] = truncated
